@@ -32,6 +32,9 @@ def make_copy(repo):
 
 
 def apply(copy, m):
+    if m.get("patch"):
+        r = subprocess.run(["patch", "-p1", "-s", "--no-backup-if-mismatch", "-i", m["patch"]], cwd=copy, stdout=subprocess.PIPE, stderr=subprocess.STDOUT, text=True)
+        return r.returncode == 0
     edits = m.get("edits") or [dict(file=m["file"], old=m["old"], new=m["new"])]
     for e in edits:
         p = os.path.join(copy, e["file"])
@@ -66,6 +69,34 @@ def run_one(prop, m, repo="/repo", run_tests=False):
         return res
     finally:
         shutil.rmtree(copy, ignore_errors=True)
+
+
+def seeded_as_mutants(prop):
+    """Kept sub-agent changes for this property (seeded/<name>/patch.diff) as bank entries applied with `patch -p1`."""
+    out = []
+    d = os.path.join(VERIF, "seeded")
+    for n in sorted(os.listdir(d)) if os.path.isdir(d) else []:
+        mp = os.path.join(d, n, "meta.json")
+        pp = os.path.join(d, n, "patch.diff")
+        if os.path.exists(mp) and os.path.exists(pp):
+            try:
+                if json.load(open(mp)).get("property") == prop:
+                    out.append(dict(name="seed:" + n, patch=pp))
+            except Exception:
+                pass
+    return out
+
+
+def run_bank(prop, repo="/repo", jobs=None, only=None):
+    """Run the mutation bank and the kept seeded changes of one property; returns the list of results."""
+    from concurrent.futures import ThreadPoolExecutor
+
+    bank = load_bank(prop) + seeded_as_mutants(prop)
+    if only:
+        bank = [m for m in bank if any(o in m["name"] for o in only)]
+    jobs = jobs or int(os.environ.get("PV_JOBS", str(min(12, (os.cpu_count() or 4)))))
+    with ThreadPoolExecutor(max_workers=jobs) as ex:
+        return list(ex.map(lambda m: run_one(prop, m, repo=repo), bank))
 
 
 def main():
